@@ -33,8 +33,28 @@ def case_size(case):
     return {"N": case["N"], "blocs": len(case.get("slates", {})), "candidates": sum(len(v) for v in case.get("slates", {}).values()) or len(case.get("candidates", []))}
 
 
+WALL = 600.0
+
+
+def gen_bulk(rng):
+    """thorough tier only (a case costs about a minute): 2^16..2^18 ballots from one bloc over 8 supported candidates -- the sizes at
+    which an implementation may start batching its pre-sampled draws"""
+    gen = rng.choice(["slate_PlackettLuce", "slate_PlackettLuce", "name_PlackettLuce", "name_Cumulative"])
+    slates = {"A": ["a1", "a2", "a3", "a4"], "B": ["b1", "b2", "b3", "b4"]}
+    case = {"gen": gen, "N": rng.choice([65536, 131072, 262144]), "by_bloc": True, "slates": slates, "props": {"A": 1.0, "B": 0.0},
+            "cohesion": {"A": {"A": 0.7, "B": 0.3}, "B": {"A": 0.4, "B": 0.6}},
+            "intervals": {b: {s: {c: rng.choice([1, 1, 2, 3]) for c in slates[s]} for s in slates} for b in slates}, "decoy": False}
+    if gen == "name_Cumulative":
+        case["num_votes"] = 3
+    return case
+
+
 def generate(run_seed, tier):
     rng = stream(run_seed, "gen")
+    if tier == "thorough" and rng.random() < 0.0001:
+        case = gen_bulk(rng)
+        case["seed"] = derive(run_seed, "stream") % 10**9
+        return case
     case = GP.gen_case(rng)
     case["seed"] = derive(run_seed, "stream") % 10**9
     return case
